@@ -550,6 +550,9 @@ def adversarial_programs():
         # an unreachable callsub directly before a label that stays reachable by a jump: the label is NOT a return point
         "dead-callsub-before-live-label": P + "b live\ndead:\ncallsub f\nlive:\ncallsub f\nint 1\nreturn\nf:\nretsub",
         "dead-callsub-before-live-label-2": P + "txn Fee\nint 1000\n<=\nbnz live\nerr\ndead:\ncallsub f\nlive:\nint 1\nreturn\nf:\nint 1\nretsub",
+        # an unreachable conditional branch INSIDE a subroutine body whose jump target is a live block of that subroutine
+        "dead-cond-branch-in-subroutine": P + "callsub f\nint 1\nreturn\nf:\nint 1\nb live\ndead:\nint 1\nbz live\nint 2\npop\nlive:\nretsub",
+        "dead-switch-in-subroutine": P + "callsub f\nint 1\nreturn\nf:\nb live\ndead:\nint 0\nswitch live other\nother:\nint 1\npop\nlive:\ntxn RekeyTo\nglobal ZeroAddress\n==\nassert\nretsub",
         "dead-calls": P + "int 1\nreturn\ndead:\ncallsub f\nint 1\nreturn\nf:\ntxn RekeyTo\nglobal ZeroAddress\n==\nassert\nretsub",
         "dead-three-successors": P + "b live\ndead:\nint 0\nswitch a b live\na:\nint 1\nreturn\nb:\nint 1\nreturn\nlive:\nint 1\nbnz a\nint 1\nbnz b\nint 1\nreturn",
         "labels-at-end": P + "int 1\nbnz end\nint 1\nreturn\nend:",
